@@ -268,9 +268,13 @@ class Translator:
             return "[" + "; ".join(self.expr(x, scope) for x in e.elts) + "]"
         if isinstance(e, ast.Call) and isinstance(e.func, ast.Name):
             fn = e.func.id
-            if fn not in self.cfg.get("calls", {}) or e.keywords:
+            if fn not in self.cfg.get("calls", {}):
                 raise Unsupported("call of %s" % fn)
             coq = self.cfg["calls"][fn][0]
+            if callable(coq):      # custom rendering (keyword arguments, validators ...): must fail closed itself
+                return coq(self, e, scope)
+            if e.keywords:
+                raise Unsupported("call of %s with keyword arguments" % fn)
             if coq == "":          # identity conversion such as list(x)
                 if len(e.args) != 1:
                     raise Unsupported("call of %s" % fn)
